@@ -225,6 +225,14 @@ def check_scanner(ctx, rep, split):
                                     l2, h2 = o2[4][0].lin, o2[4][1].lin
                                     if (l2 - hi).is_const() and (l2 - hi).k == 0 and (h2 - hi).is_const() and (h2 - hi).k == 1:
                                         k_dot = val
+                    # ... spelled selfies.startswith(".", end)
+                    for k, val in b.atoms.items():
+                        if k[0] == "truthy" and isinstance(k[1], tuple) and k[1][0] == "unk" and isinstance(k[1][1], tuple) \
+                                and k[1][1][0] == "bmeth" and k[1][1][1] == "startswith" and k[1][1][2] == skey and len(k[1][1][3]) == 2 \
+                                and k[1][1][3][0] == vkey(Con(".")) and k[1][1][3][1][0] == "num":
+                            for cand in [x for x in b.env.values() if isinstance(x, Num)] + [Num(hi)]:
+                                if vkey(cand) == k[1][1][3][1] and b.entails(eq(cand.lin, hi)):
+                                    k_dot = val
                     if dots:
                         if not (isinstance(dots[0][1], Con) and dots[0][1].value == "."):
                             probs.append("second yield is not the dot token")
